@@ -86,8 +86,8 @@ def pCase : P Case := do
   let ty ← pTy
   let init ← pVal
   let pKvs : P (List (Bytes × List Bytes)) := list (do let k ← str; let vs ← list str; pure (k, vs))
-  -- entry B (Bind / BindTo with several sources): <n> { <tag> <kvs> }*; otherwise one source of kind <tag>
-  let srcs ← if e == "B" then list (do let t ← pTag; let kvs ← pKvs; pure ({ kind := t, kvs := kvs } : Src))
+  -- entries B (Bind / BindTo) and A (app.Context.BindOnly): <n> { <tag> <kvs> }*; otherwise one source of kind <tag>
+  let srcs ← if e == "B" || e == "A" then list (do let t ← pTag; let kvs ← pKvs; pure ({ kind := t, kvs := kvs } : Src))
              else (do let kvs ← pKvs; pure [({ kind := tag, kvs := kvs } : Src)])
   let tbl ← list pEntry
   pure { entry := e, tag := tag, cfg := { maxDepth := md, maxSlice := ms, maxMap := mm, csv := csv, baseAuto := ba },
@@ -161,7 +161,7 @@ def step (line : String) : String :=
       let P := lookupP c.tbl
       match c.ty with
       | .struct fs =>
-        if c.entry == "B" then
+        if c.entry == "B" || c.entry == "A" then
           -- several sources: bindMultiSource against the folded oracle
           let m := toObs (bindMulti P c.cfg fs c.init c.srcs)
           verdict id (encObs m == encObs o) (Spec.specMulti P c.cfg fs c.init c.srcs o) "-" (encObs m)
